@@ -257,8 +257,8 @@ def plans_for(chk):
     sc = oq.scale()
     if chk.quick:
         return [("InitPart2", dict(base, K=1, GridKeep=max(1, int(100 * sc)), NQ=int(800 * sc), NH=4, Mixed=False))]
-    return [("InitPart2", dict(base, K=1, NQ=int(3000 * sc), NH=4, Mixed=False)),
-            ("InitPart2", dict(base, K=1, GridKeep=30, NQ=int(3000 * sc), NH=4, Mixed=True))]
+    return [("InitPart2", dict(base, K=1, NQ=int(1800 * sc), NH=4, Mixed=False)),
+            ("InitPart2", dict(base, K=1, GridKeep=30, NQ=int(1800 * sc), NH=4, Mixed=True))]
 
 
 def main(chk):
